@@ -76,8 +76,14 @@ def check(ck):
               "the hash is not computed over the local byte string that is written (hashing `%s`)" % A.short(hashed, 40), fa.where(sha))
         return
     # the digest is used in full (the hexdigest of that very hash object, not a slice of it)
-    hx = [c for c in fa.calls("hexdigest") if A.call_recv(c) is sha or
-          (A.call_recv(c) is not None and fa.nodes(c) and A.norm(fa.expand(A.call_recv(c), fa.nodes(c)[0])) == A.norm(sha))]
+    def is_sha(rv, at, depth=4):
+        if rv is sha:
+            return True
+        if isinstance(rv, ast.Name) and depth > 0:
+            ds = fa.df.reaching(at, rv.id)
+            return bool(ds) and all(d.kind == "assign" and d.value is not None and is_sha(d.value, d.node, depth - 1) for d in ds)
+        return False
+    hx = [c for c in fa.calls("hexdigest") if fa.nodes(c) and is_sha(A.call_recv(c), fa.nodes(c)[0])]
     par = fa.pm.get(hx[0]) if hx else None
     ok_hex = bool(hx) and not isinstance(par, ast.Subscript)
     ck.ob(R1, fa.key(sha, "full-digest"), ok_hex, "full hexdigest" if ok_hex else "the digest is truncated or not a hex digest", fa.where(sha))
@@ -466,7 +472,7 @@ def _rest(ck, fa, R3, R4, R5, R6):
         if not q.startswith("storage_filesystem.") and not q.startswith("storage_base."):
             continue
         for n in lst:
-            if isinstance(n, ast.Call) and A.call_attr(n) == "open":
+            if isinstance(n, ast.Call) and A.call_attr(n) in ("open", "write_text", "write_bytes"):
                 fi = ck.cg.funcs[q]
                 ok = q in WRITE_OPEN_SITES
                 ck.ob(R5, "%s::%s" % (q, A.short(n, 50)), ok, WRITE_OPEN_SITES.get(q, "") if ok else
@@ -560,7 +566,8 @@ def _rest(ck, fa, R3, R4, R5, R6):
     ck.run(check_versioned_key_codec, ck, "C07.R8")
     # ---- R6
     mz = FA(ck, "storage_base.StorageBackendBase.memoize")
-    asgs = [s for s in mz.stmts(ast.Assign) if any(A.dotted(t) == "memento.content_key" for t in s.targets)]
+    mp = mz.fi.params[2] if len(mz.fi.params) > 3 else "memento"
+    asgs = [s for s in mz.stmts(ast.Assign) if any(A.dotted(t) == mp + ".content_key" for t in s.targets)]
     if len(asgs) != 1:
         ck.ob(R6, mz.key(None, "from-store"), False, "memoize assigns memento.content_key %d times: the memento does not record where its bytes are" % len(asgs), mz.where())
         return
@@ -573,7 +580,8 @@ def _rest(ck, fa, R3, R4, R5, R6):
     okb = all(mz.cfg.must_pass(mz.nodes(asg), i) for i in mz.nodes_all(pm_calls))
     ck.ob(R6, mz.key(None, "before-put"), okb, "assigned before the memento is written" if okb else
           "the memento can be written before its content key is set", mz.where(asg))
-    st = mz.one([c for c in mz.calls("store") if A.dotted(A.call_recv(c)) == "self.codec"], "codec.store call")
+    from .c08 import recv_calls
+    st = mz.one(recv_calls(mz, "store", "self.codec"), "codec.store call")
     # by the callee's parameter names, so positional and keyword spellings are the same call
     cs = ck.repo.try_func("storage_base.Codec.store")
     cparams = [p_ for p_ in (cs.params if cs is not None else ["self", "result_type", "data_source", "key_override", "obj"]) if p_ != "self"]
